@@ -112,7 +112,8 @@ func coerceInt(value interface{}) interface{} {
 		}
 		return coerceInt(*value)
 	case float32:
-		if value != value || value < float32(math.MinInt32) || value > float32(math.MaxInt32) {
+		// compare in float64: float32(math.MaxInt32) rounds up to 2147483648
+		if value != value || float64(value) < float64(math.MinInt32) || float64(value) > float64(math.MaxInt32) {
 			return nil // NaN or out of range
 		}
 		return int(value)
